@@ -64,6 +64,8 @@ def euler_matrix(phi, theta=None, psi=None):
             psi = 0.0
         theta = np.array(theta, dtype=float, copy=False, ndmin=1)
         psi = np.array(psi, dtype=float, copy=False, ndmin=1)
+        # All matrix entries need the same (broadcast) shape
+        phi, theta, psi = np.broadcast_arrays(phi, theta, psi)
         ndim = 3
 
     cph = np.cos(phi)
